@@ -201,7 +201,7 @@ A_INTERN void a_slist_mov(a_slist *ctx, a_slist *to, a_slist_node *at)
 A_INTERN void a_slist_rot(a_slist *ctx)
 {
     a_slist_node *const node = ctx->head.next;
-    if (node)
+    if (node && node->next)
     {
         a_slist_link(&ctx->head, node->next);
         a_slist_link(ctx->tail, node);
